@@ -1,3 +1,194 @@
-(* Further ops (bitfields, serde, arbitrary); filled in as the model grows. *)
-let eval (_fields : string list) (fail : string -> string -> unit) (_bump : string -> unit) (op : string) : unit =
-  fail "driver.error" ("unknown op " ^ op)
+(* Bitfield histories, byte-level API, resize, serde and arbitrary observations
+   (C11-C14, C18, C20): the extracted machines of BitfieldOps.v / Hex.v against the crate. *)
+open Util
+
+let flavour_of (s : string) : M.flavour =
+  match String.split_on_char ':' s with
+  | ["list"; n] -> M.FList (n_of_dec n)
+  | ["vec"; n] -> M.FVec (n_of_dec n)
+  | ["dyn"] -> M.FDyn
+  | _ -> failwith ("bad flavour " ^ s)
+
+let nat_of_string s = nat_of_int (int_of_string s)
+
+let op_of (s : string) : M.bop =
+  match String.split_on_char ' ' s with
+  | ["new"; r; n] -> M.ONew (nat_of_string r, n_of_dec n)
+  | ["set"; r; i; v] -> M.OSet (nat_of_string r, n_of_dec i, v = "1")
+  | ["shift"; r; n] -> M.OShiftUp (nat_of_string r, n_of_dec n)
+  | ["diffi"; r; s] -> M.ODiffInplace (nat_of_string r, nat_of_string s)
+  | ["clone"; r; s] -> M.OClone (nat_of_string r, nat_of_string s)
+  | ["dec"; r; h] -> M.ODecode (nat_of_string r, bytes_of_hex h)
+  | ["union"; r; a; b] -> M.OUnion (nat_of_string r, nat_of_string a, nat_of_string b)
+  | ["inter"; r; a; b] -> M.OInter (nat_of_string r, nat_of_string a, nat_of_string b)
+  | ["diff"; r; a; b] -> M.ODiff (nat_of_string r, nat_of_string a, nat_of_string b)
+  | ["subset"; r; a; b] -> M.OSubset (nat_of_string r, nat_of_string a, nat_of_string b)
+  | _ -> failwith ("bad op " ^ s)
+
+let dec_of_n (x : M.n) : string =
+  (* decimal rendering of possibly large numbers: lengths fit in OCaml ints in practice *)
+  string_of_int (int_of_n x)
+
+let bits_s bs = if bs = [] then "(bits)" else "(bits " ^ string_of_bits bs ^ ")"
+
+let obs_string (o : M.obs) : string =
+  let sub = match o.M.o_sub with None -> "-" | Some b -> if b then "1" else "0" in
+  if not o.M.o_present then
+    Printf.sprintf "%s|0|0|(bits)|0|-|0|-|-|-|-|%s" (dec_of_n o.M.o_status) sub
+  else
+    Printf.sprintf "%s|1|%s|%s|%s|%s|%s|%s|%s|%s|%s|%s"
+      (dec_of_n o.M.o_status) (dec_of_n o.M.o_len) (bits_s o.M.o_bits) (dec_of_n o.M.o_nsb)
+      (match o.M.o_hsb with None -> "-" | Some h -> dec_of_n h)
+      (if o.M.o_zero then "1" else "0")
+      (hex_of_bytes o.M.o_slice) (hex_of_bytes o.M.o_ssz)
+      (String.concat "" (List.map (fun b -> if b then "1" else "0") o.M.o_eq))
+      (String.concat "," (List.map dec_of_n o.M.o_hash))
+      sub
+
+let str_of_string (s : string) : M.n list = List.init (String.length s) (fun i -> n_of_int (Char.code s.[i]))
+let string_of_str (l : M.n list) : string = String.concat "" (List.map (fun c -> String.make 1 (Char.chr (int_of_n c land 255))) l)
+
+let first_diff (a : string list) (b : string list) : string =
+  let rec go i a b = match a, b with
+    | x :: ar, y :: br -> if x = y then go (i + 1) ar br else Printf.sprintf "step %d: %s  vs  %s" i x y
+    | [], [] -> "none" | _ -> Printf.sprintf "length differs at step %d" i in
+  go 0 a b
+
+let bits_of_sexp_string (s : string) : bool list =
+  match parse_sexp s with
+  | L [A "bits"] -> []
+  | L [A "bits"; A b] -> bits_of_string b
+  | _ -> failwith "bad bits"
+
+let eval (fields : string list) (fail : string -> string -> unit) (bump : string -> unit) (op : string) : unit =
+  match fields with
+  | ["bfhist"; fl; ops; obs] ->
+    let flv = flavour_of fl in
+    let ops = List.map op_of (String.split_on_char ';' ops) in
+    let crate = String.split_on_char ';' obs in
+    let impl = List.map obs_string (M.run_impl flv ops) in
+    let abs = List.map obs_string (M.run_abs flv ops) in
+    bump ("bf.hist." ^ (List.hd (String.split_on_char ':' fl)));
+    List.iter (fun o -> bump ("bf.status." ^ String.sub o 0 1)) crate;
+    if impl <> crate then fail "corr.bf" ("impl model differs: " ^ first_diff impl crate);
+    if abs <> crate then begin
+      fail "oracle.C11" ("boolean-sequence machine differs: " ^ first_diff abs crate);
+      (* set-operation steps *)
+      let has_setop = List.exists (fun o -> match o with M.OUnion _ | M.OInter _ | M.ODiff _ | M.OSubset _ -> true | _ -> false) ops in
+      if has_setop then fail "oracle.C12" ("boolean-sequence machine differs: " ^ first_diff abs crate)
+    end;
+    (* C13: length rule on everything observed *)
+    List.iter (fun o ->
+        match String.split_on_char '|' o with
+        | _ :: "1" :: len :: _ ->
+          let l = int_of_string len in
+          let ok = match flv with
+            | M.FList cap -> l <= int_of_n cap
+            | M.FVec n -> l = int_of_n n
+            | M.FDyn -> l > 0 && l mod 8 = 0 in
+          if not ok then fail "oracle.C13" ("length " ^ len ^ " violates the bound of " ^ fl)
+        | _ -> ()) crate;
+    if List.exists (fun o -> String.length o > 0 && o.[0] = '2') crate then
+      fail "oracle.C05" "a bitfield operation panicked"
+  | ["bfbytes"; fl; hex; via_bytes; via_ssz] ->
+    let flv = flavour_of fl in
+    let bs = bytes_of_hex hex in
+    bump ("bf.bytes." ^ (if String.length via_ssz >= 2 then String.sub via_ssz 0 2 else via_ssz));
+    let expect (o : M.bf M.outcome) = match o with
+      | M.Ok b -> Printf.sprintf "ok %s %s %s" (bits_s (M.bf_iter b)) (hex_of_bytes (M.i_ssz flv b)) (hex_of_bytes (M.i_ssz flv b))
+      | M.Err -> "err" | M.Panic -> "panic" in
+    let m = expect (M.i_decode flv bs) in
+    if m <> via_ssz then fail "corr.bf.bytes" ("model=" ^ m);
+    (* byte-level API = SSZ codec *)
+    if via_bytes <> via_ssz then fail "oracle.C14" "from_bytes and from_ssz_bytes disagree";
+    (* closed-form accept set and value *)
+    let a = match M.a_decode flv bs with
+      | M.Ok bits -> Printf.sprintf "ok %s %s %s" (bits_s bits) (hex_of_bytes (M.a_ssz flv bits)) (hex_of_bytes (M.a_ssz flv bits))
+      | M.Err -> "err" | M.Panic -> "panic" in
+    if a <> via_ssz then fail "oracle.C14" ("accept-set reference says " ^ a);
+    if via_ssz = "panic" || via_bytes = "panic" then fail "oracle.C05" "bitfield byte constructor panicked";
+    (match String.split_on_char ' ' via_ssz with
+     | ["ok"; _; back; ssz] ->
+       if bytes_of_hex back <> bs || bytes_of_hex ssz <> bs then fail "oracle.C14" "into_bytes / as_ssz_bytes of a decoded value is not the input";
+       if bytes_of_hex back <> bs then fail "oracle.C02" "bitfield re-encoding differs"
+     | _ -> ())
+  | ["bfresize"; n; m; bits; res] ->
+    let bits = bits_of_sexp_string bits in
+    let a = match M.a_resize (n_of_dec n) (n_of_dec m) bits with
+      | M.Ok r -> "ok " ^ bits_s r | M.Err -> "err" | M.Panic -> "panic" in
+    bump "bf.resize";
+    if a <> res then fail "oracle.C13" ("resize reference says " ^ a);
+    (match M.bl_of_bits (n_of_dec n) bits with
+     | M.Ok b ->
+       let i = match M.bl_resize (n_of_dec n) (n_of_dec m) b with
+         | M.Ok r -> "ok " ^ bits_s (M.bf_iter r) | M.Err -> "err" | M.Panic -> "panic" in
+       if i <> res then fail "corr.bf.resize" ("model=" ^ i)
+     | _ -> fail "corr.bf.resize" "operand not representable")
+  | ["bfwithlen"; hex; l; res] ->
+    let bs = bytes_of_hex hex in
+    let a = match M.a_from_bytes_with_len bs (n_of_dec l) with
+      | M.Ok r -> "ok " ^ bits_s r | M.Err -> "err" | M.Panic -> "panic" in
+    let i = match M.bd_from_bytes_with_len bs (n_of_dec l) with
+      | M.Ok r -> "ok " ^ bits_s (M.bf_iter r) | M.Err -> "err" | M.Panic -> "panic" in
+    bump "bf.withlen";
+    if i <> res then fail "corr.bf.withlen" ("model=" ^ i);
+    if a <> res then fail "oracle.C13" ("from_bytes_with_len reference says " ^ a);
+    if a <> res then fail "oracle.C14" ("from_bytes_with_len reference says " ^ a)
+  | ["serde_ser"; fl; ssz; json; back] ->
+    let flv = flavour_of fl in
+    let ssz = bytes_of_hex ssz in
+    bump "serde.ser";
+    (* the property on the crate's own output: "0x" + lowercase hex of the SSZ encoding *)
+    let expect = "\"0x" ^ (if ssz = [] then "" else hex_of_bytes ssz) ^ "\"" in
+    if json <> expect then fail "oracle.C18" ("expected " ^ expect);
+    if back <> "same" then fail "oracle.C18" "serde does not round-trip";
+    (match M.i_decode flv ssz with
+     | M.Ok b ->
+       let m = "\"" ^ string_of_str (M.serde_ser flv b) ^ "\"" in
+       if m <> json then fail "corr.serde" ("model=" ^ m)
+     | _ -> fail "corr.serde" "model rejects the crate's encoding")
+  | ["serde_de"; fl; s; via_json; via_str] ->
+    let flv = flavour_of fl in
+    bump ("serde.de." ^ (if String.length via_json >= 2 then String.sub via_json 0 2 else via_json));
+    let m = match M.serde_de flv (str_of_string s) with
+      | M.Ok b -> "ok " ^ bits_s (M.bf_iter b) | M.Err -> "err" | M.Panic -> "panic" in
+    if m <> via_json then fail "corr.serde" ("model=" ^ m);
+    if via_json <> via_str then fail "oracle.C18" "JSON and plain string deserializers disagree";
+    if via_json = "panic" then fail "oracle.C05" "deserialization panicked";
+    (* reference, written directly from the property: 0x-prefixed, even-length hex of a byte
+       string that SSZ decoding accepts *)
+    let n = String.length s in
+    let ishex c = (c >= '0' && c <= '9') || (c >= 'a' && c <= 'f') || (c >= 'A' && c <= 'F') in
+    let wellformed = n >= 2 && String.sub s 0 2 = "0x" && (n - 2) mod 2 = 0 &&
+                     (let ok = ref true in String.iteri (fun i c -> if i >= 2 && not (ishex c) then ok := false) s; !ok) in
+    let expect =
+      if not wellformed then "err"
+      else
+        let bs = Util.bytes_of_hex (let h = String.sub s 2 (n - 2) in if h = "" then "-" else String.lowercase_ascii h) in
+        match M.a_decode flv bs with
+        | M.Ok bits -> "ok " ^ bits_s bits | _ -> "err" in
+    if expect <> via_json then fail "oracle.C18" ("reference says " ^ expect)
+  | ["arb"; fl; data; res] ->
+    let flv = flavour_of fl in
+    let data = bytes_of_hex data in
+    bump ("arb." ^ (if String.length res >= 2 then String.sub res 0 2 else res));
+    bump ("arbfl.seen." ^ fl);
+    if String.length res >= 2 && String.sub res 0 2 = "ok" then bump ("arbfl.ok." ^ fl);
+    let o = match flv with
+      | M.FVec n -> M.arb_bitvector n data
+      | M.FList n -> M.arb_bitlist n data
+      | M.FDyn -> failwith "no arbitrary for dyn" in
+    let m = match o with
+      | M.Ok b -> "ok " ^ bits_s (M.bf_iter b) ^ " rt" | M.Err -> "err" | M.Panic -> "panic" in
+    if m <> res then fail "corr.arb" ("model=" ^ m);
+    if res = "panic" then fail "oracle.C20" "generator panicked";
+    (match String.split_on_char ' ' res with
+     | "ok" :: rest ->
+       let rt = List.nth rest (List.length rest - 1) in
+       let bits_str = String.concat " " (List.filteri (fun i _ -> i < List.length rest - 1) rest) in
+       let l = List.length (bits_of_sexp_string bits_str) in
+       let ok = match flv with M.FVec n -> l = int_of_n n | M.FList n -> l <= int_of_n n | M.FDyn -> true in
+       if not ok then fail "oracle.C20" "generated value violates the length rule";
+       if rt <> "rt" then fail "oracle.C20" "generated value does not round-trip through SSZ"
+     | _ -> ())
+  | _ -> fail "driver.error" ("unknown op " ^ op)
